@@ -375,4 +375,80 @@ func runC24(p *core.Prog, r *core.Report) {
 		core.CheckSuccessFn(p, r8, cf, core.SuccessRule{ResultIdx: -1, MinReturns: 1, Guards: []core.Guard{slot, slotEq},
 			Derived: []core.Derived{{Name: "part-bound-to-its-position", Alts: [][]string{{"checksum-equals-its-own-slot"}, {"checksum-equals-its-own-slot(eq-form)"}}}}, Need: []string{"part-bound-to-its-position"}})
 	}
+	// ---------------- R9 the payload hash of a stream starts from nothing
+	r9 := r.Rule("C24.R9", "the hasher a validating target compares the declared payload checksum with is a fresh one for every stream: the field is assigned a value returned by a hash constructor, or by a helper all of whose results are constructor results or were Reset() before being handed out (state left by an earlier, aborted stream would make the verdict depend on that stream)", 1)
+	nH := 0
+	var freshHash func(v ssa.Value, depth int) bool
+	freshHash = func(v ssa.Value, depth int) bool {
+		if depth == 0 {
+			return false
+		}
+		switch x := v.(type) {
+		case *ssa.MakeInterface:
+			return freshHash(x.X, depth)
+		case *ssa.ChangeInterface:
+			return freshHash(x.X, depth)
+		case *ssa.Call:
+			cal := core.StaticCallee(x)
+			if cal == nil {
+				return false
+			}
+			if pk := core.FuncPkg(cal); pk != nil && (strings.HasPrefix(pk.Path(), "crypto/") || strings.HasPrefix(pk.Path(), "hash/")) && strings.HasPrefix(cal.Name(), "New") {
+				return true
+			}
+			if cal.Blocks == nil {
+				return false
+			}
+			// a helper: every returned value is fresh, or Reset() is called on it on every path before the return
+			okAll := true
+			for _, b := range cal.Blocks {
+				ret, isRet := b.Instrs[len(b.Instrs)-1].(*ssa.Return)
+				if !isRet || len(ret.Results) == 0 {
+					continue
+				}
+				rv := ret.Results[0]
+				if freshHash(rv, depth-1) {
+					continue
+				}
+				reset := false
+				for _, cs := range core.CallSites([]*ssa.Function{cal}, func(s core.Site) bool { return s.Call.Common().IsInvoke() && s.Call.Common().Method.Name() == "Reset" || strings.HasSuffix(s.Name, ").Reset") }) {
+					ci := cs.Call.(ssa.Instruction)
+					recv := cs.Call.Common().Value
+					if !cs.Call.Common().IsInvoke() && len(cs.Call.Common().Args) > 0 {
+						recv = cs.Call.Common().Args[0]
+					}
+					if recv == rv && (ci.Block() == b || ci.Block().Dominates(b)) {
+						reset = true
+					}
+				}
+				if !reset {
+					okAll = false
+				}
+			}
+			return okAll
+		}
+		return false
+	}
+	for _, fn := range p.FuncsIn("pkg/services/object/put") {
+		for _, b := range fn.Blocks {
+			for _, in := range b.Instrs {
+				st, ok := in.(*ssa.Store)
+				if !ok {
+					continue
+				}
+				fa, isFA := st.Addr.(*ssa.FieldAddr)
+				if !isFA || core.FieldAddrName(fa) != "("+putP+"validatingTarget).hash" {
+					continue
+				}
+				nH++
+				r9.Check(freshHash(st.Val, 3), core.FuncName(fn)+"#payload-hasher", p.InstrPos(in), "a fresh hasher",
+					"the stream's payload hasher is not provably fresh (a pooled hasher that is not reset keeps the bytes of an earlier stream that was aborted before its checksum comparison: the next object hashed with it passes with a checksum that is not the hash of its payload)")
+			}
+		}
+	}
+	if nH == 0 {
+		r.Fatalf("C24.R9: no assignment of validatingTarget.hash found")
+	}
+	r.Explain += " (R9) the checksum comparison of R4 is over this stream's bytes only: the hasher stored in the validating target comes from a hash constructor (or from a helper that resets what it hands out)."
+
 }
